@@ -233,7 +233,18 @@ fn j_to_s(j: &J) -> S {
         J::Num(n) => match n.parse::<i64>() {
             Ok(i) if i32::try_from(i).is_ok() => S::Integer(i as i32),
             Ok(i) => S::Long(i),
-            Err(_) => S::Double(n.parse().unwrap_or(0.0)),
+            Err(_) => {
+                // integers beyond 64 bits travel as Smile BigInteger (two's complement, big endian)
+                if let Ok(i) = n.parse::<i128>() {
+                    S::BigInteger(serde_smile::value::BigInteger::from_be_bytes(i.to_be_bytes().to_vec()))
+                } else if let Ok(u) = n.parse::<u128>() {
+                    let mut b = vec![0u8];
+                    b.extend_from_slice(&u.to_be_bytes());
+                    S::BigInteger(serde_smile::value::BigInteger::from_be_bytes(b))
+                } else {
+                    S::Double(n.parse().unwrap_or(0.0))
+                }
+            }
         },
         J::Str(s) => {
             if s == "binary!" {
@@ -251,6 +262,10 @@ fn payload(r: &mut Rng, depth: usize) -> (J, &'static str) {
     match r.below(if depth == 0 { 7 } else { 10 }) {
         0 => (J::Null, "null"),
         1 => (J::Bool(r.bool()), "bool"),
+        2 if r.chance(1, 4) => (
+            J::Num(r.pick(&["18446744073709551616", "-1267650600228229401496703205376", "340282366920938463463374607431768211455", "9223372036854775808", "-9223372036854775809"]).to_string()),
+            "bigint",
+        ),
         2 => (J::Num(r.range(-5, 1 << 40).to_string()), "int"),
         3 => (J::Num("-1.5e-7".into()), "float"),
         4 => (J::Str(r.pick(&["NaN", "Infinity", "", "AA==", "binary!", "x"]).to_string()), "string"),
